@@ -112,8 +112,8 @@ def run(tier, seed, rng):
             failures.append(dict(kind='oracle', sig='desc-history', what='Auto/AutoLength: a read or a serialized value differs from the specification',
                                  history=h, observed=got, required=want))
         obs = "[" + "; ".join(f"({g[0]}, {'None' if g[1] is None else 'Some ' + str(g[1])})" for g in got if g[0] != 'exc') + "]"
-        if any(g[0] == 'exc' for g in got):
-            obs = "[(-1, None)]"
+        if any(g[0] == 'exc' or not isinstance(g[0], int) or not (g[1] is None or isinstance(g[1], int)) for g in got):
+            obs = "[(-1, None)]"       # an exception or a read that is not an integer: never agrees with the model
         lines.append(f"({kind}, [{'; '.join(cq_op(op) for op in h['ops'])}], {obs})")
     for h in hs:
         for (r, w), op in zip(spec_run(0 if h['cls'].startswith(('Len', 'Emb')) else 1, h['ops']), h['ops']):
